@@ -73,11 +73,11 @@ theorem varsUsed_compileImm (env : Env) (i : Imm) :
   | tag idx ty => simp [compileImm, varsUsed, Goml.Dce.varsUsedFields, noBlockExpr, Goml.Dce.noBlockFields]
 
 /-- where the variables of a compiled expression may come from: operands in scope, callees -/
-def FromCtx (Γ : Ctx) (cs : List String) (y : String) : Prop :=
-  (∃ x t, lookupTy Γ x = some t ∧ y = vn x) ∨ y ∈ cs
+def FromCtx (file : AFile) (G : List String) (Γ : Ctx) (cs : List String) (y : String) : Prop :=
+  (∃ x t, lookupTy Γ x = some t ∧ y = vn x) ∨ y ∈ cs ∨ ∃ e, e ∈ fnSigs file G ∧ y = vn e.1
 
-theorem imm_fromCtx (env : Env) {Γ : Ctx} {i : Imm} (h : immOK env Γ i = true) (cs : List String) :
-    (∀ y, y ∈ varsUsed (compileImm env i) → FromCtx Γ cs y) ∧ noBlockExpr (compileImm env i) = true := by
+theorem imm_fromCtx (env : Env) {Γ : Ctx} {i : Imm} (h : immOK env file G Γ i = true) (cs : List String) :
+    (∀ y, y ∈ varsUsed (compileImm env i) → FromCtx file G Γ cs y) ∧ noBlockExpr (compileImm env i) = true := by
   obtain ⟨h1, h2⟩ := varsUsed_compileImm env i
   refine ⟨fun y hy => ?_, h2⟩
   rw [h1] at hy
@@ -86,13 +86,21 @@ theorem imm_fromCtx (env : Env) {Γ : Ctx} {i : Imm} (h : immOK env Γ i = true)
     simp only [List.mem_singleton] at hy; subst hy
     simp only [immOK] at h
     cases hl : lookupTy Γ x with
-    | none => rw [hl] at h; simp at h
+    | none =>
+      rw [hl] at h; simp only at h
+      cases ty <;> simp only [fnValOK] at h <;> try (cases h; done)
+      simp only [Bool.and_eq_true] at h
+      cases hf : (fnSigs file G).find? (·.1 == x) with
+      | none => rw [hf] at h; exact absurd h.2 (by simp)
+      | some e =>
+        have hx : e.1 = x := by simpa using List.find?_some hf
+        exact Or.inr (Or.inr ⟨e, List.mem_of_find?_eq_some hf, by rw [hx]⟩)
     | some t => exact Or.inl ⟨x, t, hl, rfl⟩
   | prim p ty => cases hy
   | tag idx ty => cases hy
 
-theorem imms_fromCtx (env : Env) {Γ : Ctx} (cs : List String) : ∀ {args : List Imm} {tys : List Ty}, argsOK env Γ args tys = true →
-    (∀ y, y ∈ varsUsedList (compileImms env args) → FromCtx Γ cs y) ∧ noBlockList (compileImms env args) = true
+theorem imms_fromCtx (env : Env) {Γ : Ctx} (cs : List String) : ∀ {args : List Imm} {tys : List Ty}, argsOK env file G Γ args tys = true →
+    (∀ y, y ∈ varsUsedList (compileImms env args) → FromCtx file G Γ cs y) ∧ noBlockList (compileImms env args) = true
   | [], tys, _ => by simp [compileImms, varsUsedList, noBlockList]
   | a :: as, [], h => by simp [argsOK] at h
   | a :: as, t :: ts, h => by
@@ -104,8 +112,8 @@ theorem imms_fromCtx (env : Env) {Γ : Ctx} (cs : List String) : ∀ {args : Lis
     exact ⟨fun y hy => hy.elim (h1 y) (h3 y), h2, h4⟩
 
 theorem fields_fromCtx (env : Env) {Γ : Ctx} (cs : List String) : ∀ {args : List Imm} {tys : List Ty} (fields : List (String × Ty)),
-    argsOK env Γ args tys = true →
-    (∀ y, y ∈ Goml.Dce.varsUsedFields (structFieldsOf fields (compileImms env args)) → FromCtx Γ cs y) ∧
+    argsOK env file G Γ args tys = true →
+    (∀ y, y ∈ Goml.Dce.varsUsedFields (structFieldsOf fields (compileImms env args)) → FromCtx file G Γ cs y) ∧
       Goml.Dce.noBlockFields (structFieldsOf fields (compileImms env args)) = true
   | [], tys, fields, _ => by simp [compileImms, structFieldsOf, Goml.Dce.varsUsedFields, Goml.Dce.noBlockFields]
   | a :: as, [], fields, h => by simp [argsOK] at h
@@ -120,8 +128,8 @@ theorem fields_fromCtx (env : Env) {Γ : Ctx} (cs : List String) : ∀ {args : L
     exact ⟨fun y hy => hy.elim (h1 y) (h3 y), h2, h4⟩
 
 theorem tfields_fromCtx (env : Env) {Γ : Ctx} (cs : List String) : ∀ {args : List Imm} {tys : List Ty} (i : Nat),
-    argsOK env Γ args tys = true →
-    (∀ y, y ∈ Goml.Dce.varsUsedFields (tupleFields i (compileImms env args)) → FromCtx Γ cs y) ∧
+    argsOK env file G Γ args tys = true →
+    (∀ y, y ∈ Goml.Dce.varsUsedFields (tupleFields i (compileImms env args)) → FromCtx file G Γ cs y) ∧
       Goml.Dce.noBlockFields (tupleFields i (compileImms env args)) = true
   | [], tys, i, _ => by simp [compileImms, tupleFields, Goml.Dce.varsUsedFields, Goml.Dce.noBlockFields]
   | a :: as, [], i, h => by simp [argsOK] at h
@@ -136,48 +144,72 @@ theorem tfields_fromCtx (env : Env) {Γ : Ctx} (cs : List String) : ∀ {args : 
 
 theorem cexpr_fromCtx {env : Env} {file : AFile} {G : List String} {Γ : Ctx} {K : KCtx} {c : CExpr} (hctl : isCtl c = false)
     (h : fragC env file G Γ K c = true) :
-    (∀ y, y ∈ varsUsed (compileCExpr env c) → FromCtx Γ (calleesC c) y) ∧ noBlockExpr (compileCExpr env c) = true := by
+    (∀ y, y ∈ varsUsed (compileCExpr env c) → FromCtx file G Γ (calleesC (Γ.map (·.1)) c) y) ∧ noBlockExpr (compileCExpr env c) = true := by
   cases c with
   | imm i => exact imm_fromCtx env h _
   | un op e ty =>
     simp only [fragC, Bool.and_eq_true] at h
-    obtain ⟨h1, h2⟩ := imm_fromCtx env h.1 (calleesC (.un op e ty))
+    obtain ⟨h1, h2⟩ := imm_fromCtx env h.1 (calleesC (Γ.map (·.1)) (.un op e ty))
     simp only [compileCExpr, varsUsed, noBlockExpr]; exact ⟨h1, h2⟩
   | bin op l r ty =>
     simp only [fragC, Bool.and_eq_true] at h
-    obtain ⟨h1, h2⟩ := imm_fromCtx env h.1.1 (calleesC (.bin op l r ty))
-    obtain ⟨h3, h4⟩ := imm_fromCtx env h.1.2 (calleesC (.bin op l r ty))
+    obtain ⟨h1, h2⟩ := imm_fromCtx env h.1.1 (calleesC (Γ.map (·.1)) (.bin op l r ty))
+    obtain ⟨h3, h4⟩ := imm_fromCtx env h.1.2 (calleesC (Γ.map (·.1)) (.bin op l r ty))
     simp only [compileCExpr, varsUsed, noBlockExpr, mem_uni, Bool.and_eq_true]
     exact ⟨fun y hy => hy.elim (h1 y) (h3 y), h2, h4⟩
   | call f args ty =>
     simp only [fragC, Bool.or_eq_true] at h
     cases f with
     | var name fty =>
-      rcases h with (h | h) | h
-      case inl.inr =>
+      rcases h with ((h | h) | h) | h
+      case inl.inl.inr =>
         obtain ⟨helper, hty, tys, hshape, hcs, hargs⟩ := refcall_shape h
-        obtain ⟨h3, h4⟩ := imms_fromCtx env (calleesC (.call (.var name fty) args ty)) hargs
+        obtain ⟨h3, h4⟩ := imms_fromCtx env (calleesC (Γ.map (·.1)) (.call (.var name fty) args ty)) hargs
         rw [hshape]
         simp only [varsUsed, noBlockExpr, mem_uni, Bool.and_eq_true, List.mem_singleton]
         refine ⟨fun y hy => ?_, trivial, h4⟩
         rcases hy with rfl | hy
-        · exact Or.inr (by rw [hcs]; exact List.mem_singleton.mpr rfl)
+        · exact Or.inr (Or.inl (by rw [hcs]; exact List.mem_singleton.mpr rfl))
+        · exact h3 y hy
+      case inl.inr =>
+        obtain ⟨helper, tys, hshape, hcs, hargs⟩ := arrcall_shape h
+        obtain ⟨h3, h4⟩ := imms_fromCtx env (calleesC (Γ.map (·.1)) (.call (.var name fty) args ty)) hargs
+        rw [hshape]
+        simp only [varsUsed, noBlockExpr, mem_uni, Bool.and_eq_true, List.mem_singleton]
+        refine ⟨fun y hy => ?_, trivial, h4⟩
+        rcases hy with rfl | hy
+        · exact Or.inr (Or.inl (by rw [hcs]; exact List.mem_singleton.mpr rfl))
         · exact h3 y hy
       case inr =>
-        obtain ⟨helper, tys, hshape, hcs, hargs⟩ := arrcall_shape h
-        obtain ⟨h3, h4⟩ := imms_fromCtx env (calleesC (.call (.var name fty) args ty)) hargs
-        rw [hshape]
-        simp only [varsUsed, noBlockExpr, mem_uni, Bool.and_eq_true, List.mem_singleton]
-        refine ⟨fun y hy => ?_, trivial, h4⟩
-        rcases hy with rfl | hy
-        · exact Or.inr (by rw [hcs]; exact List.mem_singleton.mpr rfl)
-        · exact h3 y hy
+        simp only [localCallOK] at h
+        cases hlk : lookupTy Γ name with
+        | none => rw [hlk] at h; cases h
+        | some t =>
+          rw [hlk] at h
+          cases t <;> simp only at h <;> try (cases h; done)
+          simp only [Bool.and_eq_true, Bool.not_eq_true'] at h
+          obtain ⟨⟨⟨⟨_, hsp⟩, hext⟩, hargs⟩, _⟩ := h
+          have hext' : env.getExternFn (rn name) = none := by
+            cases hx : env.getExternFn (rn name) with
+            | none => rfl
+            | some p => rw [hx] at hext; simp at hext
+          obtain ⟨h3, h4⟩ := imms_fromCtx env (calleesC (Γ.map (·.1)) (.call (.var name fty) args ty)) hargs
+          simp only [compileCExpr, compileCall_local hsp hext', varsUsed, noBlockExpr, mem_uni, Bool.and_eq_true, List.mem_singleton]
+          refine ⟨fun y hy => ?_, trivial, h4⟩
+          rcases hy with rfl | hy
+          · exact Or.inl ⟨name, _, hlk, rfl⟩
+          · exact h3 y hy
       simp only [compileCExpr, compileCall_frag h, varsUsed, noBlockExpr, mem_uni, Bool.and_eq_true, List.mem_singleton]
       simp only [callOK, Bool.and_eq_true, Bool.not_eq_true', beq_iff_eq] at h
-      have hcs : calleesC (.call (.var name fty) args ty) = [vn name] := by
-        simp only [calleesC]; exact goCallee_plain h.1.1.1.2 h.1.1.1.1.2
+      have hcs : calleesC (Γ.map (·.1)) (.call (.var name fty) args ty) = [vn name] := by
+        simp only [calleesC]
+        have hnone : lookupTy Γ name = none := by
+          cases hx : lookupTy Γ name with
+          | none => rfl
+          | some p => have := h.1.1.1.1.1; rw [hx] at this; simp at this
+        exact goCallee_plain (lookupTy_none_not_mem hnone) h.1.1.1.2 h.1.1.1.1.2
       obtain ⟨_, hcase⟩ := h
-      have hargs : ∃ tys, argsOK env Γ args tys = true := by
+      have hargs : ∃ tys, argsOK env file G Γ args tys = true := by
         cases hs : builtinSig name with
         | some pr => rw [hs] at hcase; simp only [Bool.and_eq_true] at hcase; exact ⟨_, hcase.1.2⟩
         | none =>
@@ -186,13 +218,13 @@ theorem cexpr_fromCtx {env : Env} {file : AFile} {G : List String} {Γ : Ctx} {K
           | none => rw [hf] at hcase; simp at hcase
           | some g => rw [hf] at hcase; simp only [Bool.and_eq_true] at hcase; exact ⟨_, hcase.1.2⟩
       obtain ⟨tys, hargs⟩ := hargs
-      obtain ⟨h3, h4⟩ := imms_fromCtx env (calleesC (.call (.var name fty) args ty)) hargs
+      obtain ⟨h3, h4⟩ := imms_fromCtx env (calleesC (Γ.map (·.1)) (.call (.var name fty) args ty)) hargs
       refine ⟨fun y hy => ?_, trivial, h4⟩
       rcases hy with rfl | hy
-      · exact Or.inr (by rw [hcs]; exact List.mem_singleton.mpr rfl)
+      · exact Or.inr (Or.inl (by rw [hcs]; exact List.mem_singleton.mpr rfl))
       · exact h3 y hy
-    | prim p t => simp [callOK, refCallOK, arrCallOK] at h
-    | tag i t => simp [callOK, refCallOK, arrCallOK] at h
+    | prim p t => simp [callOK, refCallOK, arrCallOK, localCallOK] at h
+    | tag i t => simp [callOK, refCallOK, arrCallOK, localCallOK] at h
   | ite c t e ty => simp [isCtl] at hctl
   | «while» c b ty => simp [isCtl] at hctl
   | matchE s arms d ty => simp [isCtl] at hctl
@@ -205,7 +237,7 @@ theorem cexpr_fromCtx {env : Env} {file : AFile} {G : List String} {Γ : Ctx} {K
       | none => rw [hv] at hcase; simp at hcase
       | some vv =>
         rw [hv] at hcase; simp only at hcase
-        obtain ⟨h1, h2⟩ := tfields_fromCtx env (calleesC (.constr (.enum tn vn' vi) args ty)) 0 hcase
+        obtain ⟨h1, h2⟩ := tfields_fromCtx env (calleesC (Γ.map (·.1)) (.constr (.enum tn vn' vi) args ty)) 0 hcase
         simp only [compileCExpr, varsUsed, noBlockExpr]
         exact ⟨h1, h2⟩
     | struct sn =>
@@ -215,7 +247,7 @@ theorem cexpr_fromCtx {env : Env} {file : AFile} {G : List String} {Γ : Ctx} {K
       | none => rw [hd] at hcase; simp at hcase
       | some d =>
         rw [hd] at hcase; simp only at hcase
-        obtain ⟨h1, h2⟩ := fields_fromCtx env (calleesC (.constr (.struct sn) args ty)) d.fields hcase
+        obtain ⟨h1, h2⟩ := fields_fromCtx env (calleesC (Γ.map (·.1)) (.constr (.struct sn) args ty)) d.fields hcase
         simp only [compileCExpr, hd, Option.map_some, Option.getD_some, varsUsed, noBlockExpr]
         exact ⟨h1, h2⟩
   | tuple items ty =>
@@ -223,7 +255,7 @@ theorem cexpr_fromCtx {env : Env} {file : AFile} {G : List String} {Γ : Ctx} {K
     cases ty with
     | tuple ts =>
       simp only [Bool.and_eq_true] at h
-      obtain ⟨h1, h2⟩ := tfields_fromCtx env (calleesC (.tuple items (.tuple ts))) 0 h.1
+      obtain ⟨h1, h2⟩ := tfields_fromCtx env (calleesC (Γ.map (·.1)) (.tuple items (.tuple ts))) 0 h.1
       simp only [compileCExpr, varsUsed, noBlockExpr]
       exact ⟨h1, h2⟩
     | _ => exact absurd h (by simp)
@@ -232,7 +264,7 @@ theorem cexpr_fromCtx {env : Env} {file : AFile} {G : List String} {Γ : Ctx} {K
     cases ty with
     | array len e =>
       simp only [Bool.and_eq_true] at h
-      obtain ⟨h1, h2⟩ := imms_fromCtx env (calleesC (.array items (.array len e))) h.1
+      obtain ⟨h1, h2⟩ := imms_fromCtx env (calleesC (Γ.map (·.1)) (.array items (.array len e))) h.1
       simp only [compileCExpr, varsUsed, noBlockExpr]
       exact ⟨h1, h2⟩
     | _ => exact absurd h (by simp)
@@ -240,29 +272,30 @@ theorem cexpr_fromCtx {env : Env} {file : AFile} {G : List String} {Γ : Ctx} {K
     cases c with
     | enum tn vn' vi =>
       simp only [fragC, Bool.and_eq_true] at h
-      obtain ⟨h1, h2⟩ := imm_fromCtx env h.1.1.2 (calleesC (.cget e (.enum tn vn' vi) idx ty))
+      obtain ⟨h1, h2⟩ := imm_fromCtx env h.1.1.2 (calleesC (Γ.map (·.1)) (.cget e (.enum tn vn' vi) idx ty))
       simp only [compileCExpr, varsUsed, noBlockExpr]; exact ⟨h1, h2⟩
     | struct sn =>
       simp only [fragC, Bool.and_eq_true] at h
-      obtain ⟨h1, h2⟩ := imm_fromCtx env h.1.1 (calleesC (.cget e (.struct sn) idx ty))
+      obtain ⟨h1, h2⟩ := imm_fromCtx env h.1.1 (calleesC (Γ.map (·.1)) (.cget e (.struct sn) idx ty))
       simp only [compileCExpr, varsUsed, noBlockExpr]; exact ⟨h1, h2⟩
   | toDyn tr forTy e ty => simp [fragC] at h
   | dynCall tr m recv args ty => simp [fragC] at h
   | go e ty => simp [fragC] at h
   | proj e idx ty =>
     simp only [fragC, Bool.and_eq_true] at h
-    obtain ⟨h1, h2⟩ := imm_fromCtx env h.1 (calleesC (.proj e idx ty))
+    obtain ⟨h1, h2⟩ := imm_fromCtx env h.1 (calleesC (Γ.map (·.1)) (.proj e idx ty))
     simp only [compileCExpr, varsUsed, noBlockExpr]; exact ⟨h1, h2⟩
 
 /-! ### the scope invariant -/
 
 /-- what is known about the Go scope `sc` at a program point with ANF context `Γ`; `D` = all locals
     of the function, `cs` = the callee names of the code still to come -/
-structure SCtx (D sc : Names) (Γ : Ctx) (cs : List String) : Prop where
+structure SCtx (file : AFile) (G : List String) (D sc : Names) (Γ : Ctx) (cs : List String) : Prop where
   vars : ∀ x t, lookupTy Γ x = some t → vn x ∈ sc
   scD : ∀ y, y ∈ sc → y ∈ D
   nob : ¬ "_" ∈ sc
   cal : ∀ f, f ∈ cs → ¬ f ∈ D ∧ f ≠ "_"
+  fns : ∀ e, e ∈ fnSigs file G → ¬ vn e.1 ∈ D ∧ vn e.1 ≠ "_"
 
 /-- the names `ds` are new, pairwise distinct locals of the function -/
 def DeclOKN (D sc : Names) (ds : Names) : Prop :=
@@ -279,35 +312,38 @@ def TgtSc (m : Mode) (Γ : Ctx) (sc : Names) : Prop :=
   | .effect => True
   | .assign t => gid t ∈ sc ∧ ∀ x ty, lookupTy Γ x = some ty → vn x ≠ gid t
 
-theorem SCtx.mono_cs {D sc Γ cs cs'} (h : SCtx D sc Γ cs) (hs : ∀ f, f ∈ cs' → f ∈ cs) : SCtx D sc Γ cs' :=
-  ⟨h.vars, h.scD, h.nob, fun f hf => h.cal f (hs f hf)⟩
+theorem SCtx.mono_cs {D sc Γ cs cs'} (h : SCtx file G D sc Γ cs) (hs : ∀ f, f ∈ cs' → f ∈ cs) : SCtx file G D sc Γ cs' :=
+  ⟨h.vars, h.scD, h.nob, fun f hf => h.cal f (hs f hf), h.fns⟩
 
 theorem DeclOK.sub {D sc S S'} (h : DeclOK D sc S) (hs : (ndDecls S').Sublist (ndDecls S)) : DeclOK D sc S' :=
   ⟨hs.nodup h.1, fun y hy => h.2 y (hs.subset hy)⟩
 
 /-- an expression whose variables come from the context is clean at this point -/
-theorem expr_ok {D sc : Names} {Γ : Ctx} {cs : List String} (hctx : SCtx D sc Γ cs) {e : GExpr}
-    (hfrom : ∀ y, y ∈ varsUsed e → FromCtx Γ cs y) :
+theorem expr_ok {D sc : Names} {Γ : Ctx} {cs : List String} (hctx : SCtx file G D sc Γ cs) {e : GExpr}
+    (hfrom : ∀ y, y ∈ varsUsed e → FromCtx file G Γ cs y) :
     undecl D sc (varsUsed e) = [] ∧ (varsUsed e).contains "_" = false ∧
       (∀ t, t ∈ sc → (∀ x ty, lookupTy Γ x = some ty → vn x ≠ t) → (varsUsed e).contains t = false) := by
   refine ⟨undecl_nil.mpr (fun y hy hD => ?_), ?_, fun t ht hne => ?_⟩
-  · rcases hfrom y hy with ⟨x, t, hx, rfl⟩ | hf
+  · rcases hfrom y hy with ⟨x, t, hx, rfl⟩ | hf | ⟨e, he, rfl⟩
     · exact hctx.vars x t hx
     · exact absurd hD (hctx.cal y hf).1
+    · exact absurd hD (hctx.fns e he).1
   · rw [List.contains_eq_mem]; simp only [decide_eq_false_iff_not]
     intro hy
-    rcases hfrom _ hy with ⟨x, t, hx, he⟩ | hf
+    rcases hfrom _ hy with ⟨x, t, hx, he⟩ | hf | ⟨e, he, heq⟩
     · exact hctx.nob (he ▸ hctx.vars x t hx)
     · exact (hctx.cal _ hf).2 rfl
+    · exact (hctx.fns e he).2 heq.symm
   · rw [List.contains_eq_mem]; simp only [decide_eq_false_iff_not]
     intro hy
-    rcases hfrom _ hy with ⟨x, tx, hx, he⟩ | hf
+    rcases hfrom _ hy with ⟨x, tx, hx, he⟩ | hf | ⟨e, he, heq⟩
     · exact hne x tx hx he.symm
     · exact (hctx.cal _ hf).1 (hctx.scD t ht)
+    · exact (hctx.fns e he).1 (heq ▸ hctx.scD t ht)
 
 /-- the simple forms in tail position -/
 theorem scopeC_simple {env : Env} {file : AFile} {G : List String} {D : Names} (m : Mode) (c : CExpr) (Γ : Ctx) (K : KCtx) (sc : Names)
-    (hctl : isCtl c = false) (hfrag : fragC env file G Γ K c = true) (hctx : SCtx D sc Γ (calleesC c))
+    (hctl : isCtl c = false) (hfrag : fragC env file G Γ K c = true) (hctx : SCtx file G D sc Γ (calleesC (Γ.map (·.1)) c))
     (htgt : TgtSc m Γ sc) : Clean D sc (compileSimple env m c) := by
   obtain ⟨hfrom, hnb⟩ := cexpr_fromCtx hctl hfrag
   obtain ⟨h1, h2, h3⟩ := expr_ok hctx hfrom
@@ -411,7 +447,7 @@ theorem armDecls_cons (lhs : Imm) (body : List GStmt) (rest : List (Imm × List 
 mutual
 theorem scopeA {env : Env} {file : AFile} {G : List String} {D : Names} :
     ∀ (e : AExpr) (m : Mode) (st : St) (Γ : Ctx) (K : KCtx) (sc : Names), fragA env file G Γ K e = true →
-      SCtx D sc Γ (calleesA e) → DeclOK D sc (compileA env m st e).1 → TgtSc m Γ sc →
+      SCtx file G D sc Γ (calleesA (Γ.map (·.1)) e) → DeclOK D sc (compileA env m st e).1 → TgtSc m Γ sc →
       Clean D sc (compileA env m st e).1
   | .ret c, m, st, Γ, K, sc, hfrag, hctx, hdecl, htgt => by
     simp only [compileA, fragA, calleesA] at *
@@ -420,7 +456,7 @@ theorem scopeA {env : Env} {file : AFile} {G : List String} {D : Names} :
     simp only [fragA, Bool.and_eq_true] at hfrag
     obtain ⟨hfv, hfb⟩ := hfrag
     rw [compileA_let] at hdecl ⊢
-    have hctxv : SCtx D sc Γ (calleesC v) := hctx.mono_cs (fun f hf => by simp [calleesA, hf])
+    have hctxv : SCtx file G D sc Γ (calleesC (Γ.map (·.1)) v) := hctx.mono_cs (fun f hf => by simp [calleesA, hf])
     have hda := hdecl.1; rw [ndDecls_append] at hda
     obtain ⟨hndP, hndR, hdisj⟩ := List.nodup_append.mp hda
     by_cases hctl : isCtl v = true
@@ -432,10 +468,10 @@ theorem scopeA {env : Env} {file : AFile} {G : List String} {D : Names} :
       obtain ⟨hxnd, hndd⟩ := List.nodup_cons.mp hndP
       have hvd := varDecl_ok (ty := cexprTy env v) (v := none) hxin.1 hxin.2.1 hxin.2.2 (by simp [undecl]) rfl rfl
       -- the assigning statements, with `x` declared
-      have hctx1 : SCtx D (vn x :: sc) Γ (calleesC v) :=
+      have hctx1 : SCtx file G D (vn x :: sc) Γ (calleesC (Γ.map (·.1)) v) :=
         ⟨fun y t hy => List.mem_cons_of_mem _ (hctxv.vars y t hy),
          fun y hy => by rcases List.mem_cons.mp hy with rfl | hy; exact hxin.2.1; exact hctxv.scD y hy,
-         fun h => by rcases List.mem_cons.mp h with h | h; exact hxin.2.2 h.symm; exact hctxv.nob h, hctxv.cal⟩
+         fun h => by rcases List.mem_cons.mp h with h | h; exact hxin.2.2 h.symm; exact hctxv.nob h, hctxv.cal, hctxv.fns⟩
       have hdecl1 : DeclOK D (vn x :: sc) d.1 :=
         ⟨hndd, fun y hy => by
           have := hdecl.2 y (by rw [ndDecls_append, ndDecls_varDecl]; simp [hy])
@@ -454,8 +490,8 @@ theorem scopeA {env : Env} {file : AFile} {G : List String} {D : Names} :
       -- the body, with `x` in scope
       have hsub := scopeAfter_sub d.1 (vn x :: sc)
       have hsup := scopeAfter_sup d.1 (vn x :: sc)
-      have hctx2 : SCtx D (scopeAfter d.1 (vn x :: sc)) ((x, v.annTy) :: Γ) (calleesA body) := by
-        refine ⟨fun y t hy => ?_, fun y hy => ?_, fun h => ?_, fun f hf => hctx.cal f (by simp [calleesA, hf])⟩
+      have hctx2 : SCtx file G D (scopeAfter d.1 (vn x :: sc)) ((x, v.annTy) :: Γ) (calleesA (x :: Γ.map (·.1)) body) := by
+        refine ⟨fun y t hy => ?_, fun y hy => ?_, fun h => ?_, fun f hf => hctx.cal f (by simp [calleesA, hf]), hctx.fns⟩
         · by_cases hxy : x = y
           · subst hxy; exact hsup _ List.mem_cons_self
           · rw [lookupTy_cons_ne _ _ hxy] at hy; exact hsup _ (List.mem_cons_of_mem _ (hctx.vars y t hy))
@@ -493,8 +529,8 @@ theorem scopeA {env : Env} {file : AFile} {G : List String} {D : Names} :
       have hvd := varDecl_ok (ty := goTy v.annTy) (v := some (compileCExpr env v)) hxin.1 hxin.2.1 hxin.2.2 h1 hnb h2
       refine clean_append (clean_cons hvd.1 hvd.2 (clean_nil _ _)) ?_
       simp only [scopeAfter, declScope]
-      have hctx2 : SCtx D (vn x :: sc) ((x, v.annTy) :: Γ) (calleesA body) := by
-        refine ⟨fun y t hy => ?_, fun y hy => ?_, fun h => ?_, fun f hf => hctx.cal f (by simp [calleesA, hf])⟩
+      have hctx2 : SCtx file G D (vn x :: sc) ((x, v.annTy) :: Γ) (calleesA (x :: Γ.map (·.1)) body) := by
+        refine ⟨fun y t hy => ?_, fun y hy => ?_, fun h => ?_, fun f hf => hctx.cal f (by simp [calleesA, hf]), hctx.fns⟩
         · by_cases hxy : x = y
           · subst hxy; exact List.mem_cons_self
           · rw [lookupTy_cons_ne _ _ hxy] at hy; exact List.mem_cons_of_mem _ (hctx.vars y t hy)
@@ -523,13 +559,13 @@ theorem scopeA {env : Env} {file : AFile} {G : List String} {D : Names} :
       exact scopeA body m _ _ _ _ hfb hctx2 hdecl2 htgt2
 theorem scopeC {env : Env} {file : AFile} {G : List String} {D : Names} :
     ∀ (c : CExpr) (m : Mode) (st : St) (Γ : Ctx) (K : KCtx) (sc : Names), fragC env file G Γ K c = true →
-      SCtx D sc Γ (calleesC c) → DeclOK D sc (compileTail env m st c).1 → TgtSc m Γ sc →
+      SCtx file G D sc Γ (calleesC (Γ.map (·.1)) c) → DeclOK D sc (compileTail env m st c).1 → TgtSc m Γ sc →
       Clean D sc (compileTail env m st c).1
   | .ite c t e ty, m, st, Γ, K, sc, hfrag, hctx, hdecl, htgt => by
     simp only [fragC, Bool.and_eq_true] at hfrag
     obtain ⟨⟨⟨⟨⟨hc, _⟩, hft⟩, hfe⟩, _⟩, _⟩ := hfrag
     simp only [compileTail] at hdecl ⊢
-    obtain ⟨hfrom, hnb⟩ := imm_fromCtx env hc (calleesC (.ite c t e ty))
+    obtain ⟨hfrom, hnb⟩ := imm_fromCtx env hc (calleesC (Γ.map (·.1)) (.ite c t e ty))
     obtain ⟨h1, h2, _⟩ := expr_ok hctx hfrom
     have hT := scopeA t m (st.check (okImm env c)) Γ K sc hft (hctx.mono_cs (fun f hf => by simp [calleesC, hf]))
       (hdecl.sub (by rw [ndDecls_ite]; exact List.sublist_append_left _ _)) htgt
@@ -559,11 +595,11 @@ theorem scopeC {env : Env} {file : AFile} {G : List String} {D : Names} :
     obtain ⟨hndA, hndBB, hdisjAB⟩ := List.nodup_append.mp hndB
     have hin : ∀ y, y ∈ ndDecls rA.1 ++ ndDecls rB.1 → ¬ y ∈ sc ∧ y ∈ D ∧ y ≠ "_" := fun y hy =>
       hdecl.2 y (by rw [hdeclS, hall]; exact List.mem_cons_of_mem _ hy)
-    have hctx1 : SCtx D (gid cv :: sc) Γ (calleesA c ++ calleesA b) :=
+    have hctx1 : SCtx file G D (gid cv :: sc) Γ (calleesA (Γ.map (·.1)) c ++ calleesA (Γ.map (·.1)) b) :=
       ⟨fun y t hy => List.mem_cons_of_mem _ (hctx.vars y t hy),
        fun y hy => by rcases List.mem_cons.mp hy with rfl | hy; exact hcvin.2.1; exact hctx.scD y hy,
        fun h => by rcases List.mem_cons.mp h with h | h; exact hcvin.2.2 h.symm; exact hctx.nob h,
-       fun f hf => hctx.cal f (by simpa [calleesC] using hf)⟩
+       fun f hf => hctx.cal f (by simpa [calleesC] using hf), hctx.fns⟩
     have hdeclA : DeclOK D (gid cv :: sc) rA.1 :=
       ⟨hndA, fun y hy => by
         have := hin y (List.mem_append_left _ hy)
@@ -578,11 +614,11 @@ theorem scopeC {env : Env} {file : AFile} {G : List String} {D : Names} :
     rw [hA] at hcA
     have hsub := scopeAfter_sub rA.1 (gid cv :: sc)
     have hsup := scopeAfter_sup rA.1 (gid cv :: sc)
-    have hctx2 : SCtx D (scopeAfter rA.1 (gid cv :: sc)) Γ (calleesA b) :=
+    have hctx2 : SCtx file G D (scopeAfter rA.1 (gid cv :: sc)) Γ (calleesA (Γ.map (·.1)) b) :=
       ⟨fun y t hy => hsup _ (hctx1.vars y t hy),
        fun y hy => by rcases hsub y hy with h | h; exact hctx1.scD y h; exact (hdeclA.2 y h).2.1,
        fun h => by rcases hsub _ h with h | h; exact hctx1.nob h; exact (hdeclA.2 _ h).2.2 rfl,
-       fun f hf => hctx1.cal f (List.mem_append_right _ hf)⟩
+       fun f hf => hctx1.cal f (List.mem_append_right _ hf), hctx1.fns⟩
     have hdeclB : DeclOK D (scopeAfter rA.1 (gid cv :: sc)) rB.1 :=
       ⟨hndBB, fun y hy => by
         have := hin y (List.mem_append_right _ hy)
@@ -632,10 +668,10 @@ theorem scopeC {env : Env} {file : AFile} {G : List String} {D : Names} :
   | .matchE s arms d ty, m, st, Γ, K, sc, hfrag, hctx, hdecl, htgt => by
     simp only [fragC, Bool.and_eq_true] at hfrag
     obtain ⟨⟨hs, _⟩, hcase⟩ := hfrag
-    obtain ⟨hfrom, hnb⟩ := imm_fromCtx env hs (calleesC (.matchE s arms d ty))
+    obtain ⟨hfrom, hnb⟩ := imm_fromCtx env hs (calleesC (Γ.map (·.1)) (.matchE s arms d ty))
     obtain ⟨h1, h2, _⟩ := expr_ok hctx hfrom
-    have hctxA : SCtx D sc Γ (calleesArms arms) := hctx.mono_cs (fun f hf => by simp [calleesC, hf])
-    have hctxD : SCtx D sc Γ (calleesD d) := hctx.mono_cs (fun f hf => by simp [calleesC, hf])
+    have hctxA : SCtx file G D sc Γ (calleesArms (Γ.map (·.1)) arms) := hctx.mono_cs (fun f hf => by simp [calleesC, hf])
+    have hctxD : SCtx file G D sc Γ (calleesD (Γ.map (·.1)) d) := hctx.mono_cs (fun f hf => by simp [calleesC, hf])
     -- a clause assigns only the target and its own declarations: never a variable in scope
     have hnw : ∀ (ra : List (Imm × List GStmt)) (rd : Option (List GStmt)) (z : String), z ∈ sc →
         (∀ t, m = .assign t → z ≠ gid t) → DeclOKN D sc (armDecls ra ++ optDecls rd) →
@@ -665,7 +701,7 @@ theorem scopeC {env : Env} {file : AFile} {G : List String} {D : Names} :
         obtain ⟨⟨⟨hvn, _⟩, hfa⟩, hfd⟩ := hcase
         simp only [immOK] at hs
         cases hlt : lookupTy Γ x with
-        | none => rw [hlt] at hs; simp at hs
+        | none => rw [hlt] at hs; simp [fnValOK] at hs
         | some t =>
           have hxsc : vn x ∈ sc := hctx.vars x t hlt
           have hshape : (compileTail env m st (.matchE (.var x (.enum en)) arms d ty)).1 =
@@ -781,7 +817,7 @@ theorem scopeC {env : Env} {file : AFile} {G : List String} {D : Names} :
     rw [compileTail_simple env m st (by rfl)]; exact scopeC_simple m _ Γ K sc rfl hfrag hctx htgt
 theorem scopeArms {env : Env} {file : AFile} {G : List String} {D : Names} :
     ∀ (arms : List AArm) (m : Mode) (st : St) (Γ : Ctx) (K : KCtx) (sc : Names) (ak : ArmKind) (ty : Ty),
-      fragArms env file G Γ K ak ty arms = true → SCtx D sc Γ (calleesArms arms) →
+      fragArms env file G Γ K ak ty arms = true → SCtx file G D sc Γ (calleesArms (Γ.map (·.1)) arms) →
       DeclOKN D sc (armDecls (compileArms env m st arms).1) → TgtSc m Γ sc →
       ∀ p, p ∈ (compileArms env m st arms).1 → Clean D sc p.2
   | [], m, st, Γ, K, sc, ak, ty, _, _, _, _ => by intro p hp; simp [compileArms] at hp
@@ -790,8 +826,8 @@ theorem scopeArms {env : Env} {file : AFile} {G : List String} {D : Names} :
     rw [armDecls_cons] at hdecl
     simp only [fragArms, Bool.and_eq_true] at hfrag
     obtain ⟨⟨hhead, _⟩, hfr⟩ := hfrag
-    have hctxb : SCtx D sc Γ (calleesA body) := hctx.mono_cs (fun f hf => by simp [calleesArms, hf])
-    have hctxr : SCtx D sc Γ (calleesArms rest) := hctx.mono_cs (fun f hf => by simp [calleesArms, hf])
+    have hctxb : SCtx file G D sc Γ (calleesA (Γ.map (·.1)) body) := hctx.mono_cs (fun f hf => by simp [calleesArms, hf])
+    have hctxr : SCtx file G D sc Γ (calleesArms (Γ.map (·.1)) rest) := hctx.mono_cs (fun f hf => by simp [calleesArms, hf])
     have hbody : Clean D sc (compileA env m st body).1 := by
       cases ak with
       | enumK x sty =>
@@ -815,7 +851,7 @@ theorem scopeArms {env : Env} {file : AFile} {G : List String} {D : Names} :
     · exact hrest p hp
 theorem scopeD {env : Env} {file : AFile} {G : List String} {D : Names} :
     ∀ (d : ADflt) (m : Mode) (st : St) (Γ : Ctx) (K : KCtx) (sc : Names) (ty : Ty),
-      fragD env file G Γ K ty d = true → SCtx D sc Γ (calleesD d) →
+      fragD env file G Γ K ty d = true → SCtx file G D sc Γ (calleesD (Γ.map (·.1)) d) →
       DeclOKN D sc (optDecls (compileDflt env m st d).1) → TgtSc m Γ sc →
       CleanOpt D sc (compileDflt env m st d).1
   | .none, m, st, Γ, K, sc, ty, _, _, _, _ => by simp [compileDflt, CleanOpt]
@@ -825,7 +861,7 @@ theorem scopeD {env : Env} {file : AFile} {G : List String} {D : Names} :
     exact scopeA e m st Γ K sc hfrag.1 (hctx.mono_cs (fun f hf => by simpa [calleesD] using hf)) hdecl htgt
 theorem scopeFirst {env : Env} {file : AFile} {G : List String} {D : Names} :
     ∀ (arms : List AArm) (m : Mode) (st : St) (Γ : Ctx) (K : KCtx) (sc : Names) (ty : Ty),
-      fragFirst env file G Γ K ty arms = true → SCtx D sc Γ (calleesArms arms) →
+      fragFirst env file G Γ K ty arms = true → SCtx file G D sc Γ (calleesArms (Γ.map (·.1)) arms) →
       DeclOK D sc (compileFirstArm env m st arms).1 → TgtSc m Γ sc →
       Clean D sc (compileFirstArm env m st arms).1
   | [], m, st, Γ, K, sc, ty, hfrag, _, _, _ => by simp [fragFirst] at hfrag
@@ -835,7 +871,7 @@ theorem scopeFirst {env : Env} {file : AFile} {G : List String} {D : Names} :
     exact scopeA body m st Γ K sc hfrag.1.2 (hctx.mono_cs (fun f hf => by simp [calleesArms, hf])) hdecl htgt
 theorem scopeDU {env : Env} {file : AFile} {G : List String} {D : Names} :
     ∀ (d : ADflt) (m : Mode) (st : St) (Γ : Ctx) (K : KCtx) (sc : Names) (ty : Ty),
-      fragD env file G Γ K ty d = true → SCtx D sc Γ (calleesD d) →
+      fragD env file G Γ K ty d = true → SCtx file G D sc Γ (calleesD (Γ.map (·.1)) d) →
       DeclOK D sc (compileDfltUnit env m st d).1 → TgtSc m Γ sc →
       Clean D sc (compileDfltUnit env m st d).1
   | .none, m, st, Γ, K, sc, ty, _, _, _, _ => by simp only [compileDfltUnit]; exact clean_nil _ _
@@ -857,7 +893,7 @@ theorem fn_clean {env : Env} {file : AFile} {G : List String} {st : St} {g : AFn
     (hlocal : localOK env file G st g = true) :
     Clean (Goml.Dce.localsOf (compileFn env st g).1) ((compileFn env st g).1.params.map (·.1)) (compileFn env st g).1.body := by
   simp only [localOK, srcLocalOK, goLocalOK, Bool.and_eq_true, Bool.not_eq_true', compileFn_shape] at hlocal
-  obtain ⟨⟨⟨⟨hps, hrs⟩, hfrag⟩, hret⟩, ⟨hnodup0, hblank⟩, hcallees⟩ := hlocal
+  obtain ⟨⟨⟨⟨hps, hrs⟩, hfrag⟩, hret⟩, ⟨⟨hnodup0, hblank⟩, hcallees⟩, hfnames⟩ := hlocal
   have hnodup := of_decide_eq_true hnodup0
   clear hnodup0
   rw [compileFn_shape]
@@ -893,8 +929,8 @@ theorem fn_clean {env : Env} {file : AFile} {G : List String} {st : St} {g : AFn
   have hvd := varDecl_ok (D := D) (sc := g.params.map fun p => vn p.1) (ty := goTy g.ret) (v := none) hretP hRD
     (fun e => hnb (e ▸ hRD)) (by simp [undecl]) rfl rfl
   -- the body proper
-  have hctx : SCtx D (gid retName :: g.params.map fun p => vn p.1) (paramCtx g) (calleesA g.body) := by
-    refine ⟨fun x t hx => ?_, fun y hy => ?_, fun h => ?_, fun f hf => ?_⟩
+  have hctx : SCtx file G D (gid retName :: g.params.map fun p => vn p.1) (paramCtx g) (calleesA ((paramCtx g).map (·.1)) g.body) := by
+    refine ⟨fun x t hx => ?_, fun y hy => ?_, fun h => ?_, fun f hf => ?_, fun e he => ?_⟩
     · obtain ⟨p, hp, rfl⟩ := lookupTy_mem hx
       simp only [paramCtx, List.mem_reverse] at hp
       exact List.mem_cons_of_mem _ (List.mem_map_of_mem (f := fun p => vn p.1) hp)
@@ -905,6 +941,9 @@ theorem fn_clean {env : Env} {file : AFile} {G : List String} {st : St} {g : AFn
       · exact hnb (h ▸ hRD)
       · exact hnb (hPD _ h)
     · have := List.all_eq_true.mp hcallees f hf
+      simp only [Bool.and_eq_true, Bool.not_eq_true', List.contains_eq_mem, decide_eq_false_iff_not, bne_iff_ne] at this
+      exact this
+    · have := List.all_eq_true.mp hfnames e he
       simp only [Bool.and_eq_true, Bool.not_eq_true', List.contains_eq_mem, decide_eq_false_iff_not, bne_iff_ne] at this
       exact this
   have hdecl : DeclOK D (gid retName :: g.params.map fun p => vn p.1) S :=
